@@ -55,6 +55,32 @@ PROPS = {
         "streams": [S("vdb", 400, 20000, arg="mix=pop")],
         "rule": VDB_RULE + "; pop-heavy mix: views are opened before a branch switch and re-read after it",
         "partial": "pool-after-switch and consensus statistics after a switch are covered by the two-node sync stream (C02), not by theorems yet",
+    "C05": {
+        "module": "ZenonVerif.Props.C05",
+        "streams": [S("election", 2000, 40000), S("ticker", 4000, 400000), S("mverify", 40, 300)],
+        "rule": "election stream: delegation sets of 1..60 pillars (names: numbered / case variants / prefixes of one "
+                "another / arbitrary bytes / realistic; weights: all equal / all zero / few values / ZNN amounts / >64 bit "
+                "/ one heavy / distinct) x heights (small, uniform uint64, 2^63 and 2^64 boundaries) x (NodeCount,RandCount) "
+                "(live 30/15 in 60% of the cases, small and random groups otherwise) through the real SelectProducers; "
+                "distinct = distinct (op,result) lines; every line is evaluated on the real code and on the model, and "
+                "the monitors re-run the real code on a permuted copy of the input. ticker stream: ToTick/ToTime at tick "
+                "boundaries +-1 s, before the start, beyond the 292-year int64 range, generateProducers/genProofTime for live and "
+                "random (BlockTime,NodeCount). mverify stream: n rounds on a real mock chain (slots and whole ticks skipped, "
+                "delegations and balances changing); per round the valid next momentum and ~50 variants (every single-field "
+                "mutation, the same re-hashed and re-signed by the elected pillar, re-timed, signed by a non-elected pillar or a "
+                "user, content dropped/duplicated/reordered) judged by the real Supervisor.ApplyMomentum and by the model, plus "
+                "GetMomentumBeforeTime at every timestamp +-1 s against the specification and the loop model, plus "
+                "GetMomentumProducer for all slots of two ticks on the caching instance and on a cold instance",
+        "partial": "rand.Perm and sort.Sort are parameters (any permutation / any sorted permutation); hashes, ed25519 and the "
+                   "momentum VM are oracle values; GetMomentumBeforeTime = specification is proved for whole-second instants "
+                   "(all callers) and only as partial correctness for sub-second instants (the real loop can spin there: "
+                   "before_time_subsecond_hangs); ToTick is modelled for whole-second instants only (Duration.Seconds() is a "
+                   "float; the last nanosecond of a tick rounds up for chains older than 194 days - counted by the ticker "
+                   "stream, not judged); the ticker theorems hold within 292 years of genesis (int64 ns Duration; negative "
+                   "witness ticker_wraps_after_292_years); ComputePillarDelegations (weights from balances) is taken from the real code; schedule equality after "
+                   "restart / reorganisation across nodes is left to the sync stream (C06/C16)",
+        "assumptions": ["math/rand.Perm returns a permutation of 0..n-1 (checked by the driver on every shipped oracle value)",
+                        "sort.Sort returns a sorted permutation of its input"],
     },
     "C12": {
         "module": "ZenonVerif.Props.C12",
